@@ -101,6 +101,8 @@ FUNCTIONS = [
     ('isotp/protocol.py', 'TransportLayer', '_main_thread_fn'),
     ('isotp/protocol.py', 'TransportLayer', 'stop_sending'),
     ('isotp/protocol.py', 'TransportLayer', 'stop_receiving'),
+    ('isotp/protocol.py', 'TransportLayer', 'process'),
+    ('isotp/protocol.py', 'TransportLayer', 'reset'),
     ('isotp/protocol.py', 'NotifierBasedCanStack', 'start'),
     ('isotp/protocol.py', 'NotifierBasedCanStack', 'stop'),
     ('isotp/protocol.py', '', '_python_can_to_isotp_message'),
